@@ -93,10 +93,19 @@ def pendingBlocks (env : Env) : Nat → Nat → List Block
 def bestInvB (P : PStore) (V : PVol) : Bool :=
   V.led.best.height == P.led.syncedTo && AMap.get P.led.sync P.led.syncedTo == some V.led.best.hash
 
+/-- the block the wallet is synced to is still the node's block at that height (then Start's resync
+    step has nothing to do) -/
+def tipOnB (env : Env) (P : PStore) : Bool :=
+  P.led.syncedTo == 0 ||
+  (match env.node.blockAt P.led.syncedTo with
+   | some x => AMap.get P.led.sync P.led.syncedTo == some x.id
+   | none => false)
+
 /-- the side condition of the partial crash theorem at a crash point: tip copy = synced-to, key cache
-    exact, follower caught up with the node -/
+    exact, follower caught up with the node (same height, and the synced block is the node's) -/
 def quiet (s : Sys) : Bool :=
-  bestInvB s.P s.V && decide (s.V.keys = s.P.ks) && decide (s.env.node.tipHeight = s.P.led.syncedTo)
+  bestInvB s.P s.V && decide (s.V.keys = s.P.ks) && decide (s.env.node.tipHeight = s.P.led.syncedTo) &&
+  tipOnB s.env s.P
 
 /-- every crash of the history happens at a quiet point of the crashing run -/
 def crashesQuiet (n : Nat) : Sys → List Ev → Bool
